@@ -527,3 +527,52 @@ Proof.
     rewrite <- !app_assoc. cbn [app]. reflexivity. }
   destruct H' as (pre & post & ->). apply in_or_app. right. left. reflexivity.
 Qed.
+
+(* ------------------------------------------------------------------ the "Active filters" legend *)
+Lemma legend_line_no_panic : forall s, is_panic (legend_line s) = false.
+Proof.
+  intros s. unfold legend_line. destruct (80 <? String.length s)%nat eqn:E; [|reflexivity].
+  apply Nat.ltb_lt in E. unfold slice_to.
+  assert (H : (80 <=? String.length s)%nat = true) by (apply Nat.leb_le; lia).
+  rewrite H. reflexivity.
+Qed.
+
+Lemma legend_lines_no_panic : forall l, is_panic (legend_lines l) = false.
+Proof.
+  induction l as [|s r IH]; [reflexivity|]. cbn [legend_lines].
+  apply bind_no_panic; [apply legend_line_no_panic|]. intros x _.
+  apply bind_no_panic; [exact IH|]. reflexivity.
+Qed.
+
+Lemma legend_active_filters_no_panic : forall l, is_panic (legend_active_filters l) = false.
+Proof.
+  intros l. unfold legend_active_filters. destruct l as [|s r]; [reflexivity|].
+  apply bind_no_panic; [apply legend_lines_no_panic|]. reflexivity.
+Qed.
+
+Lemma length_take_le : forall n s, (String.length (take n s) <= n)%nat.
+Proof.
+  induction n as [|n IH]; intros s; destruct s as [|a r]; cbn; try lia. specialize (IH r). lia.
+Qed.
+
+Lemma string_length_app : forall a b, String.length (a ++ b) = (String.length a + String.length b)%nat.
+Proof. induction a as [|c a IH]; intros b; cbn; auto. Qed.
+
+(* a legend line is the filter itself when it has at most 80 bytes, else its first 80 bytes and "…":
+   never longer than 3 + 80 + 3 bytes *)
+Lemma legend_line_bounded : forall s x, legend_line s = Ok x -> (String.length x <= 86)%nat.
+Proof.
+  intros s x H. unfold legend_line in H. destruct (80 <? String.length s)%nat eqn:E.
+  - assert (E2 : (80 <=? String.length s)%nat = true) by (apply Nat.ltb_lt in E; apply Nat.leb_le; lia).
+    unfold slice_to in H. rewrite E2 in H.
+    pose proof (length_take_le 80 s) as Ht. remember (take 80 s) as t eqn:Et. clear Et.
+    cbn [bind] in H. inversion H; subst x. cbn [append String.length]. rewrite string_length_app.
+    change (String.length ellipsis) with 3%nat. lia.
+  - inversion H; subst x. apply Nat.ltb_ge in E. cbn [append String.length]. lia.
+Qed.
+
+Lemma legend_line_short_identity : forall s, (String.length s <= 80)%nat -> legend_line s = Ok ("   " ++ s).
+Proof.
+  intros s H. unfold legend_line.
+  assert (E : (80 <? String.length s)%nat = false) by (apply Nat.ltb_ge; exact H). rewrite E. reflexivity.
+Qed.
